@@ -129,6 +129,9 @@ class IsolationScenario(StateScenario):
     def gen_op(self, st, rng):
         if st.h.get("inc") and rng.random() < 0.15:
             return {"op": "load_inc", "cfg": rng.randrange(2), "fmt": rng.choice(self.INC_FORMATS)}
+        if len(st.cfgs) > 1 and rng.random() < 0.06:
+            # the value tree of one configuration loaded into the other, in memory (no serialiser in between)
+            return {"op": "transfer", "cfg": rng.randrange(2)}
         op = super().gen_op(st, rng)
         op["cfg"] = 1 if rng.random() < st.h.get("p_b1", 0) else 0
         return op
@@ -144,7 +147,7 @@ class IsolationScenario(StateScenario):
         """In-place mutation of a mutable value *inside* a typed container value."""
         cands = [t for t in tgts if t.node["kind"] == "dict" and (t.node.get("vf") or {}).get("kind") == "list" and isinstance(t.value, dict) and t.value]
         cands += [t for t in tgts if t.path == "LL" and isinstance(t.value, list) and t.value]
-        plain = [t for t in tgts if t.path in ("UL", "UD", "UA") and type(t.value) in (list, dict) and t.value]
+        plain = [t for t in tgts if type(t.value) in (list, dict) and t.value and "[" not in t.path]     # values of untyped fields
         if plain and (not cands or rng.random() < 0.5):
             t = rng.choice(plain)
             return {"op": "deep", "path": t.path, "plain": True, "inner": rng.random() < 0.5, "v": rng.choice([9, "z", [3]])}
@@ -171,6 +174,15 @@ class IsolationScenario(StateScenario):
             self.do_deep(st, st.cfgs[c], c, op, rec)
         elif op["op"] == "load_inc":
             self.do_load_inc(st, st.cfgs[c], c, op, rec)
+        elif op["op"] == "transfer":
+            src = st.cfgs[1 - c]
+            tree, e1 = self._call(lambda: src.to_tree())
+            err = e1
+            if e1 is None:
+                _, err = self._call(lambda: st.cfgs[c].load_tree(tree))
+            rec.log("transfer", c, type(err).__name__ if err else "ok")
+            if err is None:
+                rec.probe("tree-transferred-in-memory")
         else:
             super().apply(st, op, rec)
         what = op["op"] + (":" + op["name"] if "name" in op else "")
